@@ -2,15 +2,26 @@
 
     Model level, for all polygons inside the grid, valid or not.
     - [C05_orientation] and [C05_keep_policy*] need no premise at all.
-    - [C05_rings_well_formed] ("does not repeat its first vertex at the end, no two equal consecutive
-      vertices, visits no vertex twice") is proved from two kinds of explicit premises that other parts of
-      the verification discharge:
-        (routing, C02) [routing_ok]: for every edge of every (normalised) input ring the centre list returned by
-        snapClosestPoints starts at the centre of the pixel of the edge's start and ends at the centre of
-        the pixel of its end ([segments_endpoints]) and has no two equal consecutive entries
-        ([segments_nodup_adjacent]);
-        (kmp) [kmp_short_nodup]: a kmpDeduplicate output of fewer than three vertices is repeat-free.
-      The other kmp fact used, [kmp_subseq], is already discharged (ProofsKmpSubseq / ProofsLevelJoin).
+    - "does not repeat its first vertex at the end, no two equal consecutive vertices, visits no vertex twice":
+      * [C05_rings_well_formed_partial] (NO premise beyond the grid side conditions): every returned ring is
+        repeat-free — and then, with two or more vertices, last <> first and no equal neighbours — OR it is a
+        two-vertex line [p; p].  The routing premises ([routing_ok]: for every edge of every normalised input
+        ring the centre list returned by snapClosestPoints starts at the centre of the pixel of the edge's start,
+        ends at the centre of the pixel of its end and has no two equal consecutive entries) are discharged from
+        C02 ([C05_routing_premise_discharged]).
+      * The exception is REAL: [C05_rings_well_formed_refuted] — an in-grid ring of 75 vertices over three pixel
+        centres, all hypotheses true, is returned with keep-points-and-lines as the line [(17,17); (17,17)]
+        (replayed on the Go code: SnapPolygon returns [[8.5 8.5] [8.5 8.5]]).  Cause: the premise
+        [kmp_short_nodup] ("a kmpDeduplicate output of fewer than three vertices is repeat-free") that the
+        earlier form of this file assumed is FALSE, [C05_kmp_short_nodup_refuted] (Snap/ProofsKmpShort.v: the
+        default branch of the spike removal records a range that ends beyond the index where scanning resumes,
+        as in finding F13, and the next detection keeps vertices inside that range).
+      * [C05_rings_well_formed] and [C05_rings_well_formed_routing_discharged] are the CONDITIONAL forms
+        ("under kmp_short_nodup every ring is repeat-free"); their premise, quantified over all rings, is
+        refuted, so as stated they say nothing — they are kept for the record of how the clause decomposes
+        (routing + hit accounting + stack invariant + short kmp outputs), the unconditional content is the
+        _partial theorem.
+      The other kmp fact used, [kmp_subseq], is discharged (ProofsKmpSubseq / ProofsLevelJoin).
       From them: [route_no_adj_lin] (the routed ring has no equal neighbours), [hit_accounting]
       (flagged iff recorded twice), [route_counts] (the routed ring is a rotation of the recorded centres),
       [split_repeat_free] (the stack invariant), and the lifting through dedupe / match / reversal.
@@ -153,8 +164,9 @@ Example C05_example_figure_eight :
         (2%nat, [[[(8,8);(24,24);(8,56)]]; [[(24,24);(56,8);(56,56)]]])].
 Proof. vm_compute. split; reflexivity. Qed.
 
-(** bounded evidence for the premise [kmp_short_nodup] (NOT a proof of it): all chains over three centres of
-    length 3..7 without equal cyclic neighbours *)
+(** [kmp_short_nodup] on a bounded domain (it is FALSE in general, [C05_kmp_short_nodup_refuted]; the shortest
+    counterexample known has 75 vertices): all chains over three centres of length 3..7 without equal cyclic
+    neighbours *)
 Fixpoint exChains (n : nat) : list (list pt) :=
   match n with O => [[]] | S n' => flat_map (fun l => map (fun x => x :: l) [(0,0); (1,0); (2,0)]) (exChains n') end.
 Definition exCycDup (l : list pt) : bool := existsb (fun e => pt_eqb (fst e) (snd e)) (dedges l).
@@ -170,9 +182,8 @@ Proof. vm_compute. reflexivity. Qed.
 
 (** ** the routing premise discharged from C02 (Snap/ProofsJoinC05.v, from C02_routing_edges): for every grid with a
        positive resolution whose stored extent covers its computed pixels ([RootCovers], true of FromTileMatrixSet)
-       and every requested level within the index.  The kmp premise (a kmpDeduplicate output of fewer than
-       three vertices is repeat-free) remains explicit. *)
-From Texel Require Import Index.ProofsRouting Snap.ProofsJoinC05.
+       and every requested level within the index. *)
+From Texel Require Import Index.ProofsRouting Snap.ProofsJoinC05 Snap.ProofsKmpShort.
 
 Theorem C05_routing_premise_discharged : forall g P hs L r0 r', 0 < gres g -> RootCovers g ->
   insertPolygon g P = Ok hs -> (L <= gdeep g)%nat -> In r0 P -> (r' = r0 \/ r' = rev r0) ->
@@ -188,6 +199,32 @@ Theorem C05_rings_well_formed_routing_discharged : forall g P levels cfg r,
     NoDup x /\ ((2 <= length x)%nat -> hd dp x <> last x dp /\ no_adj_dup x).
 Proof. exact snap_rings_well_formed_closed. Qed.
 Print Assumptions C05_rings_well_formed_routing_discharged.
+
+(** ** the kmp premise of the two conditional theorems is false ... *)
+Theorem C05_kmp_short_nodup_refuted : exists r r',
+  no_adj_dup r /\ (3 <= length r)%nat /\ kmpDeduplicate r = Ok r' /\ (length r' < 3)%nat /\ ~ NoDup r'.
+Proof. exact kmp_short_nodup_refuted. Qed.
+Print Assumptions C05_kmp_short_nodup_refuted.
+
+(** ... and so is their conclusion without it: every other hypothesis holds, a returned ring repeats a vertex *)
+Theorem C05_rings_well_formed_refuted : exists g P levels cfg r hs,
+  0 < gres g /\ RootCovers g /\ (forall L, In L levels -> (L <= gdeep g)%nat) /\
+  insertPolygon g P = Ok hs /\
+  (forall L idx r0, In L levels -> nth_error P idx = Some r0 ->
+     routing_ok g (hotLevels g hs) L (ensureCorrectWindingOrder r0 (negb (Nat.eqb idx 0)))) /\
+  snapPolygon g P levels cfg = Ok r /\
+  exists L ps poly x, In (L, ps) r /\ In poly ps /\ In x poly /\ ~ NoDup x.
+Proof. exact snap_repeat_free_refuted. Qed.
+Print Assumptions C05_rings_well_formed_refuted.
+
+(** what holds unconditionally: repeat-free (hence last <> first, no equal neighbours), or a line [p; p] *)
+Theorem C05_rings_well_formed_partial : forall g P levels cfg r,
+  0 < gres g -> RootCovers g -> (forall L, In L levels -> (L <= gdeep g)%nat) ->
+  snapPolygon g P levels cfg = Ok r ->
+  forall L ps poly x, In (L, ps) r -> In poly ps -> In x poly ->
+    (NoDup x /\ ((2 <= length x)%nat -> hd dp x <> last x dp /\ no_adj_dup x)) \/ exists p, x = [p; p].
+Proof. exact snap_rings_well_formed_partial. Qed.
+Print Assumptions C05_rings_well_formed_partial.
 
 (** non-vacuity: the example grid and levels satisfy the new hypotheses *)
 Example C05_discharged_hypotheses_hold :
